@@ -120,6 +120,13 @@ def portfolio(job):
 
 
 # ---------------------------------------------------------------- main
+def _established(reg, c):
+    names = sorted(c.established_by(reg)) if c.established_by else []
+    return {'verified_contracts': len(names), 'examples': names[:4],
+            'relation': 'same clauses on a partition of the instances, or a weakening of their postconditions; the relation itself is '
+                        'by construction, checked only for existence of the verified units (engine.assumed-views)'}
+
+
 def load_known():
     p = os.path.join(VERIF, 'known_findings.json')
     if os.path.exists(p):
@@ -174,8 +181,36 @@ def _main(a, seed, t_start):
     if a.only:
         tasks = [t for t in tasks if a.only in t[1]]
     ctx = multiprocessing.get_context('fork')
-    with ctx.Pool(min(a.jobs, max(1, len(tasks)))) as pool:
-        outs = pool.map(run_unit, tasks, chunksize=1)
+    # Modular verification: a caller is checked against the callee's contract, so the property rests on every contract
+    # applied at a call site.  The cone is therefore closed under 'contracts used': whatever the units of this round
+    # applied and nobody has verified yet is verified in the next round (trusted views: the contracts establishing them,
+    # thorough tier only; quick lists them as assumed).
+    reg0 = _registry()
+    done = {t[1] for t in tasks}
+    outs, closure_added, pending = [], [], tasks
+    while pending:
+        with ctx.Pool(min(a.jobs, max(1, len(pending)))) as pool:
+            round_outs = pool.map(run_unit, pending, chunksize=1)
+        outs += round_outs
+        if a.only:
+            break
+        used = set()
+        for o in round_outs:
+            used.update((o.get('stats') or {}).get('callees', []))
+        new = []
+        for n in sorted(used):
+            c = reg0.get(n)
+            if c is None:
+                continue
+            names = [n]
+            if c.trusted:
+                names = sorted(c.established_by(reg0)) if (thorough and c.established_by) else []
+            new += [m for m in names if m not in done and reg0.get(m) is not None and not reg0.get(m).trusted]
+        new = sorted(set(new))
+        done.update(new)
+        closure_added += new
+        pending = [('contract', n, opts) for n in new]
+        pending.sort(key=lambda t: next((i for i, h in enumerate(heavy) if h in t[1]), len(heavy)))
 
     all_results = []
     unit_rows = []
@@ -306,7 +341,7 @@ def _main(a, seed, t_start):
 
     # ---- bounded stand-in (thorough: every contract of the cone; quick: only behind undecided ones)
     undecided_units = sorted({r['unit'] for r in undecided if r['unit_kind'] == 'contract'})
-    targets = [n for (k, n) in spec.units() if k == 'contract'] if thorough else undecided_units
+    targets = ([n for (k, n) in spec.units() if k == 'contract'] + closure_added) if thorough else undecided_units
     targets = list(targets) + [n for (k, n) in spec.units() if k == 'contract' and reg.get(n).bounded_only and n not in targets]
     for name in targets:
         c = reg.get(name)
@@ -363,7 +398,9 @@ def _main(a, seed, t_start):
         'obligations': n_obl, 'discharged': discharged,
         'checker_cmd': './check %s --tier %s' % (prop, a.tier),
         'trusted_base': TRUSTED_BASE,
-        'functions_under_contract': sorted({n for (k, n) in spec.units() if k == 'contract'}),
+        'functions_under_contract': sorted({n for (k, n) in spec.units() if k == 'contract'} | set(closure_added)),
+        'contracts_added_by_cone_closure': closure_added,
+        'helpers_without_contract_executed_inline': sorted({n for o in outs for n in (o.get('stats') or {}).get('auto_inlined', [])}),
         'units': unit_rows, 'by_backend': {k: {kk: (round(vv, 3) if isinstance(vv, float) else vv) for kk, vv in v.items()}
                                            for k, v in by_backend.items()},
         'paths_enumerated': total_paths, 'solver_queries_during_execution': total_queries,
@@ -372,6 +409,7 @@ def _main(a, seed, t_start):
         'bounded_checks': bounded_rows,
         'functions_bounded_not_proved': sorted(n for (k, n) in spec.units() if k == 'contract' and reg.get(n).bounded_only),
         'assumed_contracts': sorted({c.name for c in reg.all if c.trusted}),
+        'assumed_contracts_established_by': {c.name: _established(reg, c) for c in reg.all if c.trusted},
         'known_findings_hit': [kf for kf, _ in known_hits],
         'source_sha256': source_hashes(),
         'samples': samples,
